@@ -470,7 +470,47 @@ def fam_measurements(tier):
     return out
 
 
+def fam_lend_then_split(tier):
+    """class (seed C16-8, aliasing between neighbour tables): a once-played SHORT table that is extended by ONE peeled
+    iteration of a repeated neighbour which is short itself, so that the extended table is still below min_seq_len and is
+    extended FURTHER by split_one_child — which decrements an entry's count in place.  If the peeled entries are the
+    neighbour's own Loop objects (not copies), the neighbour's table loses repetitions too, and its own later split
+    works on the altered count.  Neighbour before / after / on both sides, one or two entries with counts > 1, fixed
+    and volatile entry counts, limits on the boundary of every test of that branch"""
+    out = []
+    ks = (2, 3) if tier == 'quick' else (2, 3, 4)
+    rs = (5,) if tier == 'quick' else (2, 3, 5)
+    for k in ks:
+        for r in rs:
+            Y1 = lambda: T([L(1, r)], r=k)                       # k x [ Y played r times ]
+            Y2 = lambda: T([L(1, r), L(2, 2)], r=k)              # two entries with counts
+            X = lambda: T([L(0)])
+            pats = {'XY': lambda Y: [X(), Y()], 'YX': lambda Y: [Y(), X()], 'YXY': lambda Y: [Y(), X(), Y()],
+                    'XYU': lambda Y: [X(), Y(), T([L(2), L(0), L(2), L(1)])],
+                    'UYX': lambda Y: [T([L(2), L(0), L(2), L(1)]), Y(), X()]}
+            for name, f in pats.items():
+                for Y, ny in ((Y1, 1), (Y2, 2)):
+                    lims = {(ny + 2, ny + 3), (ny + 2, 8), (ny + 3, 8), (ny + 3, ny + 4)}
+                    if tier != 'quick':
+                        lims |= {(ny + 2, ny + 2), (ny + 4, 8), (ny + 1, 8), (ny + 5, 16)}
+                    for mn, mx in sorted(lims):
+                        if tier == 'quick' and name in ('XYU', 'UYX') and (mn, mx) != (ny + 2, 8):
+                            continue
+                        out.append(mk(T(f(Y)), std_wfs(), min=mn, max=mx, **STD_CFG))
+    # the entry that is split has a volatile count (split_one_child falls back to it) / the neighbour's count is volatile
+    for mn, mx in ((3, 8), (4, 8)):
+        out.append(mk(T([T([L(0)]), T([L(1, 5, vol=True)], r=3)]), std_wfs(), min=mn, max=mx, **STD_CFG))
+        out.append(mk(T([T([L(1, 5)], r=3, vol=True), T([L(0)])]), std_wfs(), min=mn, max=mx, **STD_CFG))
+        out.append(mk(T([T([L(0)]), T([L(1, 5), L(2, 3, vol=True)], r=2)]), std_wfs(), min=mn + 1, max=mx, **STD_CFG))
+    # compiled twice: the shared entries would also show in the tree the first compilation leaves behind
+    for first in ({'min': 3, 'max': 8}, {'min': 4, 'max': 8}):
+        out.append(mk(T([T([L(0)]), T([L(1, 5)], r=3)]), std_wfs(), extra={'first': first}, min=2, max=8, **STD_CFG))
+        out.append(mk(T([T([L(1, 5)], r=3), T([L(0)]), T([L(2, 4)], r=2)]), std_wfs(), extra={'first': first}, min=2, max=8, **STD_CFG))
+    return out
+
+
 FAMILIES = [
+    ('lend_then_split', fam_lend_then_split),
     ('measurements', fam_measurements),
     ('near_integer', fam_near_integer),
     ('same_source', fam_same_source),
